@@ -183,11 +183,11 @@ def nf_small(raw):
 def run(ctx):
     CFG["A"], CFG["B"] = POOL[ctx.seed % len(POOL)]
     if ctx.quick:
-        CFG.update(max_sends=2, max_breaks=2, kinds=("eof", "reset"))
+        CFG.update(max_sends=2, max_breaks=2, kinds=("eof", "reset", "oserr"))
         depth = 13
         cap = 60000
     else:
-        CFG.update(max_sends=3, max_breaks=3, kinds=("eof", "reset", "oserr"))
+        CFG.update(max_sends=3, max_breaks=3, kinds=("eof", "reset", "oserr", "timeout"))
         depth = 20
         cap = 1500000
     ctx.rule = ("BFS with state hashing over interleavings of: application send on either side, delivery of the next in-flight "
